@@ -24,7 +24,8 @@ OnRec(e) ==
       [] e.e = "stock" ->
            [s EXCEPT !.viol = Add(Add(Add(Add(s.viol, ~e.raised, "PowerFlowNeverRaises"), ~e.converged \/ e.resid_ok, "ConvergedMeansBalanced"),
                                       ~e.converged \/ e.setpoints_ok, "ControlledBusesAtSetPoint"), ~e.converged \/ ~e.nan, "NoNaNSolution") \cup
-                              (IF e.converged /\ ~e.indep_ok THEN {"ConvergedMeansBalancedFromPhysicalData"} ELSE {})]
+                              (IF e.converged /\ ~e.indep_ok THEN {"ConvergedMeansBalancedFromPhysicalData"} ELSE {}) \cup
+                              (IF e.converged /\ ~e.source_ok THEN {"ConvergedMeansBalancedFromSourceFile"} ELSE {})]
       [] e.e = "samecase" ->
            [s EXCEPT !.viol = Add(Add(s.viol, e.same_success, "VariantsAgreeOnSuccess"), e.same_solution, "VariantsAgreeOnSolution")]
       [] e.e = "jac" ->
